@@ -176,27 +176,86 @@ def trace_interp(ctx, tag, n, mode="mixed", chunks=8, cases_file=None):
     return summ
 
 
-def repo_test_traces(ctx, doc=False):
-    """Direction A on the repository's own tests (hook H3): run tests/ubpf_vm.rs and tests/misc.rs
-    (thorough: the doc-tests too) of /repo's working tree with the execution recorder on, and
-    validate every recorded interpreter run, instruction by instruction, against Machine.tla."""
-    import shutil, testtraces
-    from concurrent.futures import ThreadPoolExecutor
+def run_repo_tests(ctx, which, doc):
+    """Run /repo's own tests (working tree) with the recorder hooks on; -> (trace dir, failing commands)."""
+    import shutil
     tdir = os.path.join(ctx.workdir, "test-traces")
     shutil.rmtree(tdir, ignore_errors=True)
     os.makedirs(tdir)
     env = {"RUSTFLAGS": "--cfg rbpf_verif", "CARGO_TARGET_DIR": os.path.join(WORK, "repo-tests-target"),
            "RBPF_VERIF_TRACE_DIR": tdir, "CARGO_NET_OFFLINE": "true"}
-    cmds = [["cargo", "test", "--offline", "-j", "8", "--test", "ubpf_vm", "--test", "misc"]]
+    cmds = [["cargo", "test", "--offline", "-j", "8"] + which]
     if doc:
         cmds.append(["cargo", "test", "--offline", "-j", "8", "--doc"])
-    failed_tests = 0
+    failed = 0
     for cmd in cmds:
         p = core.sh(cmd, cwd=core.REPO, env=env, check=False, timeout=1800)
         if "could not compile" in p.stdout or "error: no test target" in p.stdout:
             raise ToolError("building /repo's tests with the recorder failed:\n" + p.stdout[-3000:])
         if p.returncode != 0:
-            failed_tests += 1       # a failing test is the suite's business; its runs are validated all the same
+            failed += 1       # a failing test is the suite's business; what it recorded is validated all the same
+    return tdir, failed
+
+
+def repo_test_verdicts(ctx, doc=False):
+    """Direction A for the verifier (hook H4): every verdict the default verifier gave while /repo's
+    tests ran must be Verifier!Verdict's (TraceVerdict.tla)."""
+    import re, testtraces
+    tdir, failed = run_repo_tests(ctx, ["--tests"], doc)
+    path = os.path.join(ctx.workdir, "repo-tests.verdicts.ndjson")
+    n, acc, skipped = testtraces.convert_verdicts(tdir, path)
+    if n < 100:
+        raise ToolError(f"only {n} verifier verdicts were recorded from /repo's tests")
+    lines = open(path).read().splitlines()
+    # negative control: one verdict flipped -> rejected at that event
+    k = len(lines) // 2
+    ev = json.loads(lines[k])
+    ev["accept"] = not ev["accept"]
+    bad = path + ".negctl"
+    open(bad, "w").write("\n".join(lines[:k] + [json.dumps(ev)] + lines[k + 1:]) + "\n")
+    r = run_tlc(f"{ctx.prop}-traceverdict-negctl", "TraceVerdict", {}, spec="TraceSpec", invariants=["Mark"],
+                postcondition="TraceAccepted", workers=1, timeout=600, env={"TRACE": bad}, expect_violation=True)
+    m = re.search(r'<<"TRACE-REJECTED", (\d+), (\d+)>>', r.out)
+    if not m or int(m.group(1)) != k + 1:
+        raise ToolError("negative control failed: a flipped verdict was not rejected by TraceVerdict")
+    validated = 0
+    attempt = 0
+    while lines and attempt < 8:
+        attempt += 1
+        cur = f"{path}.try{attempt}"
+        open(cur, "w").write("\n".join(lines) + "\n")
+        r = run_tlc(f"{ctx.prop}-traceverdict-{attempt}", "TraceVerdict", {}, spec="TraceSpec", invariants=["Mark"],
+                    postcondition="TraceAccepted", workers=1, timeout=600, env={"TRACE": cur}, expect_violation=True)
+        ctx.states += r.distinct
+        ctx.transitions += r.generated
+        m = re.search(r'<<"TRACE-ACCEPTED", (\d+)>>', r.out)
+        if m:
+            validated += int(m.group(1))
+            break
+        m = re.search(r'<<"TRACE-REJECTED", (\d+), (\d+)>>', r.out)
+        if not m:
+            raise ToolError("TraceVerdict failed:\n" + r.out[-2000:])
+        pos = int(m.group(1))
+        ev = json.loads(lines[pos - 1])
+        ctx.violation(f"a verdict of the default verifier recorded while /repo's tests ran is not Verifier!Verdict's: "
+                      f"{'accepted' if ev['accept'] else 'refused (' + ev['msg'][:80] + ')'} a program of {ev['nbytes']} bytes",
+                      {"kind": "verdict-event", "event": ev})
+        validated += pos - 1
+        lines = lines[:pos - 1] + lines[pos:]
+    ctx.traces += validated
+    ctx.evaluations += n
+    ctx.extra["repo_tests"] = {"distinct_verdicts_validated": validated, "accepted": acc, "refused": n - acc, "not_recorded_too_long": skipped,
+                               "test_commands_failing": failed, "what": "every call of the default verifier made by /repo's tests" + (" and doc-tests" if doc else ""),
+                               "negative_control": "a flipped verdict is rejected by TraceVerdict at exactly that event"}
+
+
+def repo_test_traces(ctx, doc=False):
+    """Direction A on the repository's own tests (hook H3): run tests/ubpf_vm.rs and tests/misc.rs
+    (thorough: the doc-tests too) of /repo's working tree with the execution recorder on, and
+    validate every recorded interpreter run, instruction by instruction, against Machine.tla."""
+    import testtraces
+    from concurrent.futures import ThreadPoolExecutor
+    tdir, failed_tests = run_repo_tests(ctx, ["--test", "ubpf_vm", "--test", "misc"], doc)
     chunks = 4
     paths, nruns, aside, nev = testtraces.convert_dir(tdir, os.path.join(ctx.workdir, "repo-tests.trace"), chunks=chunks)
     if nruns < 100:
@@ -440,6 +499,8 @@ def run_C06(ctx):
                       {"kind": "tlc", "output": r2.violation[:3000]})
     ctx.add_tlc("MC_Safety (verdict corpus)", r2)
     replay_verdicts(ctx, "universe", r2.replay)
+    # direction A: the verdicts given while /repo's own tests ran
+    repo_test_verdicts(ctx, doc=not ctx.quick)
 
 
 def run_C05(ctx):
